@@ -7,5 +7,6 @@ pub mod dim;
 pub mod misc;
 pub mod prefix;
 pub mod qty;
+pub mod session;
 pub mod syntax;
 pub mod vm;
